@@ -116,6 +116,10 @@ class System:
                 nudge = base.pop('nudge')
                 out = self.value(base, n)
                 return out * (1.0 + nudge)
+            if v.get('int'):
+                if v.get('arr') and n:
+                    return np.asarray([int(v['v']) + k for k in range(n)], dtype=np.int64)
+                return int(v['v'])
             if v.get('arr') and n:
                 return np.asarray([v['v'] * (1.0 + 0.05 * k) for k in range(n)], dtype=np.float64) \
                     if not v.get('zero_at') else \
